@@ -169,11 +169,30 @@ def build(inp):
     kind = "step_func" if inp.get("kind", "step") == "step" else "cubic"
     proc = Processor(len(dims), dims=list(dims), spline_kind=kind)
     mats = {"drift": [], "ctrl": []}
+    nsub = len(dims)
+
+    def targets_arg(e):
+        """the forms the public methods accept: a list, a bare int, or None (= the first k subsystems)"""
+        form = e.get("targets_form", "list")
+        if form == "int":
+            return e["targets"][0]
+        if form == "none":
+            return None
+        return list(e["targets"])
+
     for d in inp.get("drift", []):
         dd = [dims[q] for q in d["targets"]]
         m = rand_herm(d["seed"], int(np.prod(dd))) * float(fr(d.get("scale", [1, 1])))
-        proc.add_drift(qutip.Qobj(m, dims=[dd, dd]), targets=list(d["targets"]))
-        mats["drift"].append(embed(m, d["targets"], dims))
+        kw = {}
+        if "cyclic" in d:               # keyword given explicitly (True or False)
+            kw["cyclic_permutation"] = bool(d["cyclic"])
+        proc.add_drift(qutip.Qobj(m, dims=[dd, dd]), targets=targets_arg(d), **kw)
+        if d.get("cyclic"):
+            # docstring: one term per cyclic shift of the target list modulo the number of subsystems
+            for i in range(nsub):
+                mats["drift"].append(embed(m, [(t + i) % nsub for t in d["targets"]], dims))
+        else:
+            mats["drift"].append(embed(m, d["targets"], dims))
     ops = []
     for ch in inp["channels"]:
         dd = [dims[q] for q in ch["targets"]]
@@ -183,10 +202,31 @@ def build(inp):
     # add_control registration order: "ctrl_order" (channel indices) may differ from the order in which the
     # pulses / the coefficient dict are given
     order = inp.get("ctrl_order") or list(range(len(inp["channels"])))
+    groups = inp.get("cyclic_controls", [])
+    registered = set()
     for k in order:
         ch = inp["channels"][k]
-        if ch.get("ctrl", True):       # False: the channel exists only as a Pulse object given to add_pulse
-            proc.add_control(ops[k], targets=list(ch["targets"]), label=ch["label"])
+        if "cyc" in ch:
+            # the channel is shift ch["cyc"][1] of a control registered ONCE with cyclic_permutation=True;
+            # its label is then (label, tuple(shifted targets)) and ch["targets"] is that shifted list
+            g = ch["cyc"][0]
+            if g not in registered:
+                registered.add(g)
+                grp = groups[g]
+                dd = [dims[q] for q in grp["targets"]]
+                mg = rand_herm(grp["seed"], int(np.prod(dd))) * float(fr(ch.get("scale", [1, 1])))
+                proc.add_control(qutip.Qobj(mg, dims=[dd, dd]), targets=targets_arg(grp),
+                                 cyclic_permutation=True, label=grp["label"])
+        elif ch.get("ctrl", True):     # False: the channel exists only as a Pulse object given to add_pulse
+            kw = {}
+            if "cyclic" in ch:
+                kw["cyclic_permutation"] = bool(ch["cyclic"])     # explicit False
+            proc.add_control(ops[k], targets=targets_arg(ch), label=ch["label"], **kw)
+
+    def real_label(ch):
+        if "cyc" in ch:
+            return (groups[ch["cyc"][0]]["label"], tuple(ch["targets"]))
+        return ch["label"]
 
     user = []       # (description, the caller's ndarray, pristine copy): must be bit-identical after every call
 
@@ -220,10 +260,16 @@ def build(inp):
         return arr(x, "coeff of %s" % ch["label"])
 
     if inp.get("mode", "direct") == "setters":
-        proc.set_coeffs({ch["label"]: cof(ch) for ch in inp["channels"]})
-        proc.set_tlist({ch["label"]: arr(ch["tlist"], "tlist of %s" % ch["label"]) for ch in inp["channels"]})
+        proc.set_coeffs({real_label(ch): cof(ch) for ch in inp["channels"]})
+        proc.set_tlist({real_label(ch): arr(ch["tlist"], "tlist of %s" % ch["label"]) for ch in inp["channels"]})
     else:
         for ch, q in zip(inp["channels"], ops):
+            if "cyc" in ch:
+                # Hamiltonian and targets as REGISTERED by add_control(cyclic_permutation=True)
+                ham, tg = proc.get_control(real_label(ch))
+                proc.add_pulse(Pulse(ham, tg, tlist=arr(ch["tlist"], "tlist of %s" % ch["label"]),
+                                     coeff=cof(ch), spline_kind=kind, label=real_label(ch)))
+                continue
             kw = pulse_label_kw(ch)
             proc.add_pulse(Pulse(q, list(ch["targets"]), tlist=arr(ch["tlist"], "tlist of %s" % ch["label"]),
                                  coeff=cof(ch), spline_kind=kind, **kw))
@@ -293,7 +339,8 @@ def pulse_label_kw(ch):
 def labels_own(inp):
     """every pulse carries its own unique control label and the control is registered (needed by the file
     format of save_coeff/read_coeff, which identifies columns by label)"""
-    return all(ch.get("ctrl", True) and (ch.get("pulse_label") is None or ch["pulse_label"].get("kind") == "own")
+    return all(ch.get("ctrl", True) and "cyc" not in ch
+               and (ch.get("pulse_label") is None or ch["pulse_label"].get("kind") == "own")
                for ch in inp["channels"])
 
 
@@ -804,6 +851,63 @@ def gen_targets(rng, dims):
     return rng.sample(range(n), k)
 
 
+def gen_keywords(rng):
+    """the keyword alphabet of the public methods that define H(t): add_drift / add_control with
+    cyclic_permutation=True/False, targets as list / int / None, operators on 1, 2 or 3 subsystems with
+    non-ascending targets"""
+    n = rng.choice([1, 2, 2, 3, 3, 3])
+    dm = rng.choice([2, 2, 3])
+    dims = [dm] * n                    # uniform dims: every cyclic shift of a target list fits the operator
+
+    def tg(kmax=None):
+        k = rng.randint(1, kmax or n)
+        return rng.sample(range(n), k)  # any order, e.g. [2, 0]
+
+    def with_form(e):
+        t = e["targets"]
+        if len(t) == 1 and rng.random() < 0.4:
+            e["targets_form"] = "int"
+        elif t == list(range(len(t))) and rng.random() < 0.5:
+            e["targets_form"] = "none"
+        return e
+
+    drift = []
+    for _ in range(rng.choice([1, 1, 2])):
+        d = with_form(dict(targets=tg(), seed=rng.randint(0, 10 ** 6)))
+        r = rng.random()
+        if r < 0.65:
+            d["cyclic"] = True
+        elif r < 0.85:
+            d["cyclic"] = False
+        drift.append(d)
+    chans, groups = [], []
+    lab = rng.choice(LABELS)
+    # one control family registered with cyclic_permutation=True; a subset of its shifts carries pulses
+    base = tg()
+    gseed = rng.randint(0, 10 ** 6)
+    groups.append(with_form(dict(label="cyc", targets=base, seed=gseed)))
+    shifts = rng.sample(range(n), rng.randint(1, n))
+    for i in shifts:
+        chans.append(dict(label="cyc@%d" % i, cyc=[0, i], targets=[(t + i) % n for t in base], seed=gseed))
+    for m in range(rng.choice([0, 1, 2])):
+        c = with_form(dict(label=lab % m, targets=tg(), seed=rng.randint(0, 10 ** 6)))
+        if rng.random() < 0.5:
+            c["cyclic"] = False
+        chans.append(c)
+    rng.shuffle(chans)
+    for ch in chans:
+        tl = gen_grid(rng)
+        ch["tlist"] = [enc(x) for x in tl]
+        ch["coeff"] = [enc(x) for x in gen_coeff(rng, len(tl) - rng.choice([0, 1]))]
+    order = list(range(len(chans)))
+    rng.shuffle(order)
+    inp = dict(dims=dims, drift=drift, channels=chans, cyclic_controls=groups, kind="step", ctrl_order=order,
+               mode=rng.choice(["direct", "setters"]), state_seed=rng.randint(0, 10 ** 6), family="keywords")
+    if rng.random() < 0.25:
+        add_history(rng, inp)
+    return inp
+
+
 def gen_valid(rng, late=False, kind="step", nch=None):
     dims = gen_system(rng)
     nch = nch or rng.choice([1, 2, 2, 3, 3, 4])
@@ -1090,6 +1194,14 @@ def branch_tags(inp):
         tags.add("channels sharing one coefficient array")
     if inp.get("family"):
         tags.add(inp["family"])
+    for d in inp.get("drift", []):
+        if "cyclic" in d:
+            tags.add("add_drift cyclic_permutation=%s on %d subsystem(s)" % (d["cyclic"], len(d["targets"])))
+    for g in inp.get("cyclic_controls", []):
+        tags.add("add_control cyclic_permutation=True on %d subsystem(s)" % len(g["targets"]))
+    for e in list(inp.get("drift", [])) + list(chans) + list(inp.get("cyclic_controls", [])):
+        if e.get("targets_form", "list") != "list":
+            tags.add("targets given as " + e["targets_form"])
     for op in inp.get("history", []):
         tags.add("history:" + op)
     for c in arr:
@@ -1144,6 +1256,8 @@ def correspond(ctx):
         inputs.append(("shared-arrays", gen_shared_arrays(rng)))
     for _ in range(ctx.n(110, 800)):
         inputs.append(("scaled", gen_scaled(rng)))
+    for _ in range(ctx.n(100, 700)):
+        inputs.append(("keywords", gen_keywords(rng)))
     # histories on one processor: a third of the valid-family inputs so far run earlier calls first
     nsolv = ctx.n(8, 40)
     for kind, inp in inputs:
@@ -1168,7 +1282,7 @@ def correspond(ctx):
     # file-model cases: valid property-domain inputs, every 4th
     filecases = []
     for idx, c in enumerate(cases):
-        if in_property_domain(c) and labels_own(c) and not c.get("family") and len(filecases) < ctx.n(60, 300) and idx % 3 == 0:
+        if in_property_domain(c) and labels_own(c) and not c.get("family", "").startswith("scale") and len(filecases) < ctx.n(60, 300) and idx % 3 == 0:
             filecases.append((idx, bool(idx % 2)))
     models, fres = run_models(ctx.tier, cases, filecases)
 
@@ -1212,7 +1326,7 @@ def correspond(ctx):
         # --- property oracle on the real code
         use_solver = in_property_domain(inp) and n_solver > 0 and (
             kind in ("valid", "leak-family", "corpus") or (kind == "shared-labels" and idx % 5 == 0)
-            or (kind == "shared-arrays" and idx % 4 == 0))
+            or (kind == "shared-arrays" and idx % 4 == 0) or (kind == "keywords" and idx % 6 == 0))
         if use_solver:
             n_solver -= 1
         light = kind not in ("corpus",) and idx % 2 != 0       # the heavier re-runs on every second case
@@ -1467,6 +1581,7 @@ def search(ctx, broken):
     pool += [gen_repeated(rng) for _ in range(ctx.n(60, 200))]
     pool += [gen_shared_arrays(rng) for _ in range(ctx.n(60, 200))]
     pool += [gen_scaled(rng) for _ in range(ctx.n(80, 200))]
+    pool += [gen_keywords(rng) for _ in range(ctx.n(80, 200))]
     for inp in pool:
         try:
             fs = oracle_case(inp)
